@@ -121,6 +121,11 @@ func (fan *HwMonFan) AttachFanRpmCurveData(curveData *map[int]float64) (err erro
 
 	fan.FanCurveData = curveData
 
+	// forget a startPwm that was derived from previously attached data,
+	// otherwise ComputePwmBoundaries mistakes it for a user provided value
+	if fan.Config.StartPwm == nil {
+		fan.StartPwm = nil
+	}
 	startPwm, maxPwm := ComputePwmBoundaries(fan)
 	fan.SetStartPwm(startPwm, false)
 	fan.SetMaxPwm(maxPwm, false)
